@@ -23,7 +23,7 @@ func (pf *BiasListeners) Spec_Len() int {
 }
 
 func (pf *BiasListeners) Spec_Fetch(listenerName string) *BiasListener {
-	preferenceFunMap := utils.AsMap(pf)
+	preferenceFunMap := utils.Spec_AsMap(pf)
 	fun, ok := (*preferenceFunMap)[listenerName]
 	if !ok {
 		var keys []string
@@ -62,6 +62,6 @@ func Spec_WeightIdentity(criterion string, value Weight) Weight {
 }
 
 func Spec_NewCriterionValue(previousWeights *Weights, baseCriterion *Criterion, generator *utils.ValueGenerator) Weight {
-	weight := (*previousWeights)[baseCriterion.Identifier()]
+	weight := (*previousWeights)[baseCriterion.Spec_Identifier()]
 	return (*generator)() * weight
 }
